@@ -777,7 +777,7 @@ static void op_scrub(World &W, const Json &op) {
     char *p = (char *) thread_arena().place(b.data(), b.size(), al == 16 ? Arena::RIGHT : (al & 15));
     ref::InstView I = inst_view(W, s);
     bool acc = ref::accept_meta(b.data());
-    fragment_metadata_t md; memset(&md, 0, sizeof md);
+    fragment_metadata_t md; memset(&md, 0x01, sizeof md);   // the caller's struct holds leftovers, not zeroes
     cur().api = "get_fragment_metadata";
     int rc = liberasurecode_get_fragment_metadata(p, &md);
     W.trace.add("scrub.rc", rc);
@@ -813,7 +813,7 @@ static void op_scrub(World &W, const Json &op) {
     if (op["twin"].in(0) && acc && !swapped) {
         std::vector<u8> t = b; to_foreign_endian(t); W.fault("FOREIGN_ENDIAN");
         char *q = (char *) thread_arena().place(t.data(), t.size(), al == 16 ? Arena::RIGHT : (al & 15));
-        fragment_metadata_t mt; memset(&mt, 0, sizeof mt);
+        fragment_metadata_t mt; memset(&mt, 0x01, sizeof mt);
         cur().api = "get_fragment_metadata(twin)";
         int rt = liberasurecode_get_fragment_metadata(q, &mt);
         W.trace.add("twin.rc", rt);
@@ -828,7 +828,7 @@ static void op_scrub(World &W, const Json &op) {
             else if (memcmp(mt.chksum, md.chksum, sizeof md.chksum)) diff = "chksum";
             else if (mt.backend_id != md.backend_id) diff = "backend-id";
             else if (mt.backend_version != md.backend_version) diff = "backend-version";
-            else if (F.ct == ref::CT_CRC32 && (mt.chksum_mismatch != 0) != (md.chksum_mismatch != 0)) diff = "payload-mismatch-flag";
+            else if ((mt.chksum_mismatch != 0) != (md.chksum_mismatch != 0)) diff = "payload-mismatch-flag";
             if (!diff.empty()) W.viol("C11", "twin/field-differs/" + diff, "field " + diff + " of the byte-swapped twin differs from the native fragment's");
             W.trace.add("twin.mm", mt.chksum_mismatch);
         }
